@@ -1,6 +1,6 @@
 //! C05 correspondence: generated core-language programs run on the real interpreter and on the Lean
 //! reference evaluator; compared: final value, printed output, raised / not raised.
-use vharness::coreast::*;
+use vharness::coreast::Expr;
 use vharness::coregen::*;
 use vharness::*;
 
@@ -107,6 +107,63 @@ fn main() {
         let key = if r.starts_with("panic") { "panic".to_string() } else if r.starts_with("parse") { "generator-syntax".to_string() } else { "program".to_string() };
         let input = format!("{}\nrequest: {}", src, requests[i]);
         rep.judge(&key, &input, r, parts[0], parts[1]);
+    }
+    // shrink the first failing program: drop top-level statements (and dump entries) while the
+    // disagreement persists, so that the replay is small
+    if let Some(first) = rep.disagreements.first().cloned() {
+        if let Some(idx) = rust.iter().position(|(src, _, _)| first.input.starts_with(src.as_str())) {
+            let still_fails = |e: &Expr| -> bool {
+                let (r, ex) = run_rust(&e.src());
+                if ex {
+                    return false;
+                }
+                let resp = run_driver(&args.driver, &[format!("run {} {}", LEAN_FUEL, e.sexp())]);
+                let parts: Vec<&str> = resp[0].split('\t').collect();
+                parts.len() >= 2 && !parts[0].starts_with("fuel") && (r != parts[0] || r != parts[1])
+            };
+            if let Expr::Seq(mut xs, semi) = programs[idx].0.clone() {
+                let mut i = 0;
+                while i + 1 < xs.len() {
+                    let mut cand = xs.clone();
+                    cand.remove(i);
+                    if still_fails(&Expr::Seq(cand.clone(), semi)) {
+                        xs = cand;
+                    } else {
+                        i += 1;
+                    }
+                }
+                // the final dump list
+                if let Some(Expr::List(items)) = xs.last().cloned() {
+                    let mut items = items;
+                    let mut j = 0;
+                    while j < items.len() && items.len() > 1 {
+                        let mut cand = items.clone();
+                        cand.remove(j);
+                        let mut prog = xs.clone();
+                        *prog.last_mut().unwrap() = Expr::List(cand.clone());
+                        if still_fails(&Expr::Seq(prog, semi)) {
+                            items = cand;
+                        } else {
+                            j += 1;
+                        }
+                    }
+                    *xs.last_mut().unwrap() = Expr::List(items);
+                }
+                let small = Expr::Seq(xs, semi);
+                if still_fails(&small) {
+                    let (r, _) = run_rust(&small.src());
+                    let req = format!("run {} {}", LEAN_FUEL, small.sexp());
+                    let resp = run_driver(&args.driver, &[req.clone()]);
+                    let parts: Vec<&str> = resp[0].split('\t').collect();
+                    let d = &mut rep.disagreements[0];
+                    d.input = format!("{}\nrequest: {}", small.src(), req);
+                    d.rust = r;
+                    d.impl_ = parts[0].to_string();
+                    d.spec = parts.get(1).unwrap_or(&"").to_string();
+                    rep.notes.push("the first disagreement was shrunk by dropping top-level statements".into());
+                }
+            }
+        }
     }
     rep.notes.push(format!("programs skipped because a step budget ran out on either side: {}", skipped));
     rep.write(&args.out);
